@@ -8,11 +8,12 @@ for the routing nodes) are evaluated by coqc on the cases the real nodes are dri
 import json, os, struct
 import framework as F
 import floatbase
+import cov_regions
 
 PROP = "C16"
 META = dict(
     technique="Coq proof of closed forms for the node models + coqc-evaluated model vs real Node::process correspondence (bit-exact f32)",
-    text="Machine-checked (Coq 8.16.1) closed forms for models of the dasp_graph nodes written after the source: Sum (per channel and sample, fold of `+` from 0.0 over the inputs that have the channel, in input order; silence without inputs), SumBuffers (every output = fold over all buffers of all inputs), Pass (first input's buffers onto the outputs, surplus outputs and the no-input case untouched), Delay (per channel the output stream over any number of calls = ring content then input stream; from C06's delay-line theorem), the dyn Signal node (successive frames de-interleaved, LEN frames per call, continuing across calls, min(CHANNELS, outputs) channels) and GraphNode (copy-in, inner processing, copy-out), for every input count, buffer count, buffer length and call count; no panic, no out-of-bounds unchecked access. GraphNode is composed with the C09 traversal model: its inner graph is a C09 multigraph of (node, buffers) weights processed by the loops of dasp_graph::process with the inner node type's own (possibly panicking) Node::process; proved: on ANY inner multigraph the call returns and is copy-in, C09 process, copy-out (c16_graph_node_is_c09); with an acyclic inner upstream subgraph of any shape the inner graph ends as C09's functional evaluation and the output is the evaluated output node's buffers (c16_graph_node_functional); the same for a graph node sitting in an outer graph run by the C09 model, its inputs being the final buffers of the outer feeders (c16_graph_node_composed); graph nodes nest to any depth, and the built-in nodes are an instance. The models are tied to the crate by running them inside coqc on the same cases as the real nodes under every wrapper type (Box, &mut, BoxedNode, BoxedNodeSend, dyn Fn, dyn FnMut, fn pointer, nested GraphNode over Graph and StableGraph, with star-shaped and with arbitrary inner graphs: chains, diamonds, fan-in with parallel edges and self-loops, feedback cycles through a Delay, random DAGs and cyclic graphs, nodes that do not feed the output node, StableGraph with removed nodes, two-level nesting, missing input/output nodes) and comparing all output buffers bit for bit, together with the number of Signal::next calls made so far (signals are instrumented), after every call of histories in which the node's buffer list (NodeData::buffers) is also taken away, restored and resized between calls (zero-buffer calls included).",
+    text="Machine-checked (Coq 8.16.1) closed forms for models of the dasp_graph nodes written after the source: Sum (per channel and sample, fold of `+` from 0.0 over the inputs that have the channel, in input order; silence without inputs), SumBuffers (every output = fold over all buffers of all inputs), Pass (first input's buffers onto the outputs, surplus outputs and the no-input case untouched), Delay (per channel the output stream over any number of calls = ring content then input stream; from C06's delay-line theorem), the dyn Signal node (successive frames de-interleaved, LEN frames per call, continuing across calls, min(CHANNELS, outputs) channels) and GraphNode (copy-in, inner processing, copy-out), for every input count, buffer count, buffer length and call count; no panic, no out-of-bounds unchecked access. GraphNode is composed with the C09 traversal model: its inner graph is a C09 multigraph of (node, buffers) weights processed by the loops of dasp_graph::process with the inner node type's own (possibly panicking) Node::process; proved: on ANY inner multigraph the call returns and is copy-in, C09 process, copy-out (c16_graph_node_is_c09); with an acyclic inner upstream subgraph of any shape the inner graph ends as C09's functional evaluation and the output is the evaluated output node's buffers (c16_graph_node_functional); the same for a graph node sitting in an outer graph run by the C09 model, its inputs being the final buffers of the outer feeders (c16_graph_node_composed); graph nodes nest to any depth, and the built-in nodes are an instance. The models are tied to the crate by running them inside coqc on the same cases as the real nodes under every wrapper type (Box, &mut, BoxedNode, BoxedNodeSend, dyn Fn, dyn FnMut, fn pointer, nested GraphNode over Graph and StableGraph, with star-shaped and with arbitrary inner graphs: chains, diamonds, fan-in with parallel edges and self-loops, feedback cycles through a Delay, random DAGs and cyclic graphs, nodes that do not feed the output node, StableGraph with removed nodes, two-level nesting, missing input/output nodes) and comparing all output buffers bit for bit, together with the number of Signal::next calls made so far (signals are instrumented), after every call of histories in which the node's buffer list (NodeData::buffers) is also taken away, restored and resized between calls (zero-buffer calls included). The rest of the public surface of boxed.rs and buffer.rs is exercised and compared too: a BoxedNode / BoxedNodeSend is also unwrapped again through `Into<Box<dyn Node (+ Send)>>`, filled by assignment through `DerefMut` (around a placeholder node) and called through `DerefMut` only, with `Deref` checked to hand out the wrapped box; buffer lists are also grown by `resize_with(n, Buffer::default)` (c16_buffer_default: the same as resizing with Buffer::SILENT); `Buffer == Buffer` is observed on every buffer before/after designated calls, on pairs designed to differ in the first / last / one middle sample, by one ulp, only in the sign of a zero, or to be identical with a NaN inside, and predicted by the model's sample-wise IEEE comparison (c16_buffer_eq, c16_buffer_eq_f32_self).",
     note="Trusted: Coq kernel; the hand-written models (Buffer as list with a length hypothesis, float `+` as an abstract operation in the theorems and Flocq binary32 in the run); Processor::process on the inner graph of a GraphNode is the C09 model (petgraph's DfsPostOrder and adjacency order as modelled there; the star-shaped cases of the older executable model are kept beside the composed one); wrapper equivalence is established by correspondence only. Axioms: none except the Coq reals in the one theorem about real-number sums.",
     design="6/C16")
 HEADER = "From Dasp Require Import Graph.NodesRunU. Require Import Uint63."
@@ -759,14 +760,16 @@ def finish(rep, info, items, outl, fbinfo, extra, bad=()):
         if o.split(";")[-1].startswith("8"):
             panics += 1
         for q in o.split(";"):
-            if q.startswith("21"):
-                for e in q.split()[1:]:
+            t = q.split()
+            if t and t[0] == "21" and len(t) < LEN:
+                for e in t[1:]:
                     bump("buffer_eq_outcomes", "equal" if e == "1" else "different")
         if it["kind"] == "eq":
             bump("buffer_eq_designed_pairs", "cases")
     nontriv = len({it["line"] for it in items if nontrivial(it)}) if outl else 0
     nfloat = sum(1 for it in items if spec_float(it["spec"])) if outl else 0
-    dist = dict(hist, float_cases=nfloat, expect_panic_cases=panics, floatbase=fbinfo, **extra)
+    dist = dict(hist, float_cases=nfloat, expect_panic_cases=panics, floatbase=fbinfo,
+                source_regions_never_entered=cov_regions.load(PROP), **extra)
     samples = [items[i]["line"][:400] for i in (0, len(items) // 2, len(items) - 1)] if items else []
     cov = {
         "obligations": max(1, len(th)), "discharged": len(th) if info.get("coq_ok") else 0,
@@ -776,9 +779,9 @@ def finish(rep, info, items, outl, fbinfo, extra, bad=()):
             "modelled, not verified: Buffer as a list with a length hypothesis; f32 `+` abstract in the theorems, Flocq binary32 (validated against rustc by floatbase) in the run; Signal::next as a state-passing function; Processor::process on a GraphNode's inner graph = the C09 model of petgraph's DfsPostOrder/adjacency order (composed theorems and the `cg:` cases), abstract in c16_graph_node and a star-shaped instance in the older cases; wrappers are the identity in the model (their equivalence is tested, not proved)"],
         "theorems": th, "axioms_reported": info.get("axioms", []),
         "evaluations": len(outl), "distinct_nontrivial": nontriv,
-        "rule": "non-trivial = buffer counts that do not all match the output count (zip truncation / missing channel / surplus output), or >= 2 inputs, or >= 2 consecutive calls of a stateful node (delay, signal, graph around them), or the node's buffer list is changed between calls (taken away and restored, resized), or a GraphNode over an inner graph of >= 2 nodes processed by the C09 traversal (kinds cg:*)",
+        "rule": "non-trivial = buffer counts that do not all match the output count (zip truncation / missing channel / surplus output), or >= 2 inputs, or >= 2 consecutive calls of a stateful node (delay, signal, graph around them), or the node's buffer list is changed between calls (taken away and restored, resized with Buffer::SILENT or through Buffer::default) or compared before/after a call with Buffer::eq, or a GraphNode over an inner graph of >= 2 nodes processed by the C09 traversal (kinds cg:*)",
         "samples": samples, "input_distribution": dist, "disagreements": len(bad),
-        "explanation": "theorems: closed forms of every node's process for all input/buffer/call counts; tie: the model's executable definitions run by coqc on the same cases as the real nodes (all wrapper types), every output buffer after every call compared bit for bit (f32 sums in the code's order)",
+        "explanation": "theorems: closed forms of every node's process for all input/buffer/call counts, Buffer::eq / Buffer::default; tie: the model's executable definitions run by coqc on the same cases as the real nodes (all wrapper types, incl. BoxedNode(Send) used through Into / Deref / DerefMut), every output buffer after every call compared bit for bit (f32 sums in the code's order), the outcome of every Buffer == Buffer compared with the model's",
     }
     return rep.finish("proof", cov, ["Buffer modelled as a list of LEN samples; usize as nat",
                                     "the inputs a node sees are built by the real Processor over a spy graph and asserted to be the intended ones",
